@@ -244,6 +244,13 @@ def check_expectation(sc, o):
             why.append('failing part also holds later statements: %r' % (fp.exec_lines,))
     if sc.get('groups') is not None:
         why.extend(check_primitives(sc, o))
+    if e.get('fail_lineno') is not None and o.get('kind') == e.get('kind'):
+        try:
+            fl = o['ex'].failed_lineno()
+        except Exception as ex2:
+            fl = 'raised %r' % (ex2,)
+        if fl != e['fail_lineno']:
+            why.append('failed_lineno() = %r, the failing line is file line %r' % (fl, e['fail_lineno']))
     if e.get('render'):
         ex = o['ex']
         try:
